@@ -242,6 +242,16 @@ def bounded_variants(seed, n_per_country):
                                                                       " " not in got.compact and got.compact == got.compact.upper())
                 if not same:
                     return count, dict(text=p, variant=v, outcome=repr(ref), variant_outcome=repr(got))
+            # the alternate constructor: IBAN.from_bban(country, bban text) on the same variants of the BBAN part
+            if len(p) > 4:
+                ref = T.native_obs(lambda: IBAN.from_bban(p[:2], p[4:]))
+                for v in variants(rnd, p[4:])[:6]:
+                    count += 1
+                    got = T.native_obs(lambda: IBAN.from_bban(p[:2].lower(), v))
+                    same = (isinstance(ref, T.ExcTag) and got == ref) or (
+                        not isinstance(ref, (T.ExcTag, T.Escape)) and not isinstance(got, (T.ExcTag, T.Escape)) and got == ref)
+                    if not same:
+                        return count, dict(text=p, variant=v, via="from_bban", outcome=repr(ref), variant_outcome=repr(got))
     for p in ["GENODEM1GLS", "MARKDEF1100", "DEUTDEFF", "GENODEM1GL", "1234DEWWXXX", "AAAAXX22"]:
         ref = T.native_obs(lambda: BIC(p))
         for v in variants(rnd, p):
@@ -258,8 +268,12 @@ class VariantReplay:
     def native_agree(self, wit):
         from schwifty import BIC, IBAN
         cls = IBAN if len(wit["text"]) > 11 else BIC
-        a = T.native_obs(lambda: cls(wit["text"]))
-        b = T.native_obs(lambda: cls(wit["variant"]))
+        if wit.get("via") == "from_bban":
+            a = T.native_obs(lambda: IBAN.from_bban(wit["text"][:2], wit["text"][4:]))
+            b = T.native_obs(lambda: IBAN.from_bban(wit["text"][:2].lower(), wit["variant"]))
+        else:
+            a = T.native_obs(lambda: cls(wit["text"]))
+            b = T.native_obs(lambda: cls(wit["variant"]))
         same = (a == b) if isinstance(a, T.ExcTag) else (not isinstance(b, (T.ExcTag, T.Escape)) and a == b)
         return same, repr(b), repr(a)
 
